@@ -1,4 +1,5 @@
 """C17 - parsers are total (panic-freedom clause) and lookups on parsed zones cannot panic."""
+from ..rules_r5 import byte_guard
 from ..rules_r5 import lookahead_agree
 from ..rules_e1 import run_e1, by_names
 from .. import mir
@@ -28,6 +29,7 @@ def parse_roots(E):
 
 
 def run(ctx, rep):
+    byte_guard(rep, ctx.prog("Q"))
     lookahead_agree(rep, ctx.prog("Q"))
     rep.notes.append("Does not decide termination, work proportional to input, or re-parse equality.")
     run_e1(ctx, rep, lambda E: sorted(set(parse_roots(E)) | set(by_names(E, LOOKUPS))), rule="E1", min_roots=60, min_sites=600)
